@@ -78,6 +78,8 @@ def foreign_arches(parent_arches, own=()):
     """architectures a child of a parent with `parent_arches` must not have: an unrelated one, and names that CONTAIN or ARE
     CONTAINED IN one of the parent's (ppc64 / ppc64le, s390 / s390x)"""
     out = [a for a in ARCHES if a not in parent_arches][:1]
+    # ...and the source pseudo-architecture: look-ups treat it specially, the subset rule does not
+    out += [a for a in ("src",) if a not in parent_arches and a not in own]
     for a in parent_arches:
         for cand in (a[:-1], a[:-2], a + "le", a + "x", a.upper(), a + " "):
             if cand and cand not in parent_arches and cand not in own and cand not in out:
